@@ -55,6 +55,17 @@ PROPS["C03"] = {
     "assumptions": ["sequential interleavings of Write and gotNACK only"],
 }
 
+PROPS["C04"] = {
+    "units": [
+        plain("regress", "packetmap", "TestVerif_C04_Regress_.*"),
+        rapid("layer-machine", "rtpconn", "TestVerif_C04_LayerMachine", 2000, 15000),
+        rapid("requested-tracks", "rtpconn", "TestVerif_C04_RequestedTracks", 3000, 20000),
+    ],
+    "technique": "stateful property testing (rapid): invariants over consecutive layer snapshots of a real down track under generated packet/feedback events",
+    "assumptions": ["event-granularity interleavings only: lost updates inside Write vs a concurrent adjustLayer are not explored",
+                    "the send-rate estimate is set by poking the estimator (no real-time sleeping)"],
+}
+
 NOT_APPLICABLE = {}
 
 ENGINES = [
